@@ -27,6 +27,9 @@ class Violation(Exception):
         Exception.__init__(self, message)
         self.prop = prop
         self.oracle = oracle
+        if len(cell) > 200:
+            # signatures identify a class of violations: keep them short and stable
+            cell = cell[:160] + "~" + hashlib.sha256(cell.encode()).hexdigest()[:8]
         self.cell = cell
         self.message = message
         self.detail = detail
@@ -105,12 +108,25 @@ class RunResult(object):
         self.error = None
 
 
-def execute(profile, cfg, ops=None, rng=None, tier="quick"):
+def execute(profile, cfg, ops=None, rng=None, tier="quick", observer=None):
     """Run one case.  Generation mode: rng given, ops None.  Replay mode: ops given."""
     res = RunResult()
     res.cfg = cfg
     ctx = profile.new_ctx(cfg, tier)
     executed = []
+    auto = getattr(ctx, "auto_op", None)
+    if observer is not None:
+        _step = ctx.step
+
+        def _observed(op):
+            w = getattr(ctx, "world", None)
+            n = len(w.log) if w is not None else 0
+            try:
+                _step(op)
+            finally:
+                w2 = getattr(ctx, "world", None)
+                observer(op, (w2.log[n:] if w2 is w else w2.log) if w2 is not None else [])
+        ctx.step = _observed
     try:
         try:
             if ops is None:
@@ -126,6 +142,19 @@ def execute(profile, cfg, ops=None, rng=None, tier="quick"):
                 for op in ops:
                     executed.append(op)
                     ctx.step(op)
+                    if auto is not None and getattr(ctx, "auto_started", False):
+                        break       # (older replay files carry the continuation: it is regenerated below)
+            # deterministic continuation owned by the profile (C02: the cooperative peer).  It is not part
+            # of the recorded op list, so a cut-down list always continues with a genuine continuation.
+            n_auto = 0
+            while auto is not None and not getattr(ctx, "done", False):
+                op = auto()
+                if op is None:
+                    break
+                n_auto += 1
+                if n_auto > 5000:
+                    raise HarnessError("continuation of %s does not terminate" % profile.id)
+                ctx.step(op)
             ctx.finish()
         except Violation as v:
             res.violation = (v.signature, v.message, v.detail)
